@@ -157,6 +157,13 @@ def _strip_comments(text):
         elif text.startswith("--", i):
             while i < n and text[i] != "\n":
                 i += 1
+        elif text[i] == '"':
+            # string literal: keep the quotes, drop the content
+            out.append('""')
+            i += 1
+            while i < n and text[i] != '"':
+                i += 2 if text[i] == "\\" else 1
+            i += 1
         else:
             out.append(text[i])
             i += 1
